@@ -247,6 +247,19 @@ def bounded(tier, seed):
                                         later += fexps(c_)
                             if any(x != y and x.fluent() == y.fluent() and x.substitute(subs_) == y.substitute(subs_) for x in st_f for y in later):
                                 sig = "start-and-end-effect-on-one-ground-fluent-through-parameter-aliasing"
+                    if sig == "unclassified" and "bounds/invariants violated" in (why or "") and r.status != ValidationResultStatus.VALID:
+                        # the library's own time-triggered validator rejects the converted plan too: an action whose START increase / decrease pushes a bounded
+                        # numeric fluent and whose END effect ASSIGNS the same fluent -- the compiled action only sees the final assignment
+                        from unified_planning.shortcuts import StartTiming, EndTiming
+                        for _, a_, ps_, _ in back:
+                            if not isinstance(a_, DurativeAction):
+                                continue
+                            subs_ = dict(zip(a_.parameters, ps_))
+                            st_incdec = [e.fluent.substitute(subs_) for t_, el in a_.effects.items() if t_ == StartTiming() for e in el
+                                         if (e.is_increase() or e.is_decrease()) and (e.fluent.type.lower_bound is not None or e.fluent.type.upper_bound is not None)]
+                            end_assign = [e.fluent.substitute(subs_) for t_, el in a_.effects.items() if t_ == EndTiming() for e in el if e.is_assignment()]
+                            if any(x == y for x in st_incdec for y in end_assign):
+                                sig = "start-increase-leaves-a-bounded-fluent-outside-its-type-until-the-end-assignment-of-the-same-action"
                     failures.append({"what": f"seed {s}: plan valid for the compiled problem converts back to an invalid temporal plan "
                                              f"({why or r.status.name}) [{sig}]", "concrete": desc, "observed": desc["converted"]})
                 elif len(samples) < 3:
